@@ -612,6 +612,29 @@ func (a *Analysis) HandlerCheck() (out []Finding, checked int, conns map[int]boo
 		}
 		return h, true
 	}
+	// Monotonic mode: when every Handle call of the run registers a non-nil handler with a number larger
+	// than all earlier ones, a stronger and interval-free rule applies (it also works while Handle is being
+	// called continuously): a message whose last byte was consumed at s1 and whose reader moved on at s2 must
+	// go, exactly once, to a handler h with L <= h <= U, where L is the largest handler whose Handle call had
+	// RETURNED before s1 and U the largest whose call had STARTED before s2 (L == 0: dropping it is allowed).
+	mono := len(spans) > 0
+	for i, s := range spans {
+		if s.h <= 0 || (i > 0 && s.h <= spans[i-1].h) {
+			mono = false
+		}
+	}
+	bounds := func(s1, conn int) (lo, hi int) {
+		s2 := nextOnConn(s1, conn)
+		for _, s := range spans {
+			if s.ret < s1 && s.h > lo {
+				lo = s.h
+			}
+			if s.call < s2 && s.h > hi {
+				hi = s.h
+			}
+		}
+		return lo, hi
+	}
 	// handler invocations by payload
 	got := map[string][]Handled{}
 	a.R.Tr.Mu.Lock()
@@ -642,11 +665,18 @@ func (a *Analysis) HandlerCheck() (out []Finding, checked int, conns map[int]boo
 		if s.Pkt.Type == mqttref.PUBREL {
 			relConsumed[fmt.Sprintf("%d/%d", e.Conn, s.Pkt.ID)] = e.Seq
 			if m, ok := q2[fmt.Sprintf("%d/%d", e.Conn, s.Pkt.ID)]; ok && e.Seq < lastConsumed[e.Conn] {
+				pl := string(m.Pkt.Payload)
+				if mono {
+					lo, hi := bounds(e.Seq, e.Conn)
+					checked++
+					conns[e.Conn] = true
+					out = append(out, a.expectHandledRange(pl, lo, hi, got[pl], e.Conn, 2)...)
+					continue
+				}
 				h, stable := handlerAtConn(e.Seq, e.Conn)
 				if !stable {
 					continue
 				}
-				pl := string(m.Pkt.Payload)
 				checked++
 				conns[e.Conn] = true
 				out = append(out, a.expectHandled(pl, h, got[pl], e.Conn, 2)...)
@@ -663,16 +693,39 @@ func (a *Analysis) HandlerCheck() (out []Finding, checked int, conns map[int]boo
 		if e.Seq >= lastConsumed[e.Conn] {
 			continue // the last thing consumed on this connection: the handler may still be running
 		}
+		pl := string(s.Pkt.Payload)
+		if mono {
+			lo, hi := bounds(e.Seq, e.Conn)
+			checked++
+			conns[e.Conn] = true
+			out = append(out, a.expectHandledRange(pl, lo, hi, got[pl], e.Conn, int(s.Pkt.QoS))...)
+			continue
+		}
 		h, stable := handlerAtConn(e.Seq, e.Conn)
 		if !stable {
 			continue
 		}
-		pl := string(s.Pkt.Payload)
 		checked++
 		conns[e.Conn] = true
 		out = append(out, a.expectHandled(pl, h, got[pl], e.Conn, int(s.Pkt.QoS))...)
 	}
 	return out, checked, conns
+}
+
+func (a *Analysis) expectHandledRange(pl string, lo, hi int, got []Handled, conn, qos int) []Finding {
+	if len(got) == 0 {
+		if lo == 0 {
+			return nil // no handler had been registered for sure when it was looked up
+		}
+		return []Finding{{"inbound-dropped", fmt.Sprintf("inbound %s (q%d) was consumed by the client on connection %d after Handle(h%d) had returned, but no handler was invoked", pl, qos, conn, lo)}}
+	}
+	if len(got) > 1 {
+		return []Finding{{"inbound-duplicated", fmt.Sprintf("inbound %s (q%d, connection %d) was handed over %d times", pl, qos, conn, len(got))}}
+	}
+	if got[0].H < lo || got[0].H > hi {
+		return []Finding{{"handler-stale", fmt.Sprintf("inbound %s (q%d, connection %d) went to handler h%d; Handle(h%d) had already returned when its last byte was consumed (newest handler whose registration had started: h%d)", pl, qos, conn, got[0].H, lo, hi)}}
+	}
+	return nil
 }
 
 func (a *Analysis) expectHandled(pl string, h int, got []Handled, conn, qos int) []Finding {
